@@ -111,11 +111,17 @@ def gen_jobs(rnd, n, fail_at=None):
             nodes = [{"processor": "TSourceDef"}, {"processor": "TOp2"}, {"processor": "rename:a:a2"}]
             ctx["b"] = f"b{k}"
         if fail_at == k:
-            how = rnd.choice(["proc", "proc", "kw-only-exception", "unknown-parameter", "unresolved-parameter", "type-mismatch"])
+            how = rnd.choice(["proc", "proc", "kw-only-exception", "unknown-parameter", "unresolved-parameter", "type-mismatch",
+                              "empty-message", "empty-message", "multi-line-message"])
             if how == "proc":
                 nodes.insert(rnd.randrange(min(1, len(nodes)), len(nodes) + 1), {"processor": "TFail"})
             elif how == "kw-only-exception":
                 nodes.insert(rnd.randrange(min(1, len(nodes)), len(nodes) + 1), {"processor": "TFailKw"})
+            elif how == "empty-message":
+                nodes.insert(rnd.randrange(min(1, len(nodes)), len(nodes) + 1), {"processor": "TFailEmpty"})
+            elif how == "multi-line-message":
+                nodes.insert(rnd.randrange(min(1, len(nodes)), len(nodes) + 1),
+                             {"processor": "TFailMsg", "parameters": {"msg": rnd.choice(["\nsecond line only", "first\nsecond", " ", "\n"])}})
             elif how == "unknown-parameter":
                 nodes.append({"processor": "TOp0", "parameters": {"bogus": 1}})
             elif how == "unresolved-parameter":
